@@ -50,6 +50,8 @@ enum Op {
     Group { kind: u8, name: String },
     StatsGet { f: usize },
     StatsList,
+    /// listing probe: records which keys the cache holds (never-matching invalidate_with predicate)
+    List { f: usize },
     Advance(i64),
 }
 fn op_json(o: &Op) -> Value {
@@ -63,6 +65,7 @@ fn op_json(o: &Op) -> Value {
         }
         Op::StatsGet { f } => json!({"stats_get": f}),
         Op::StatsList => json!("stats_list"),
+        Op::List { f } => json!({"list": f}),
         Op::Advance(ns) => json!({"advance_ns": ns}),
     }
 }
@@ -85,6 +88,8 @@ struct CallRec {
     /// the body ran and returned Err (scripted)
     ran_err: bool,
     ok_value: bool,
+    /// value id returned (unique per execution in scenarios that script values)
+    value: u64,
 }
 
 struct Scenario {
@@ -114,6 +119,7 @@ fn pick_functions(rng: &mut Rng, focus: &str) -> Vec<&'static FnDesc> {
             "C07" => !d.scope_thread && d.limit.is_some() && d.ttl.is_none() && d.max_memory.is_none() && matches!(d.policy, "fifo" | "lru"),
             "C08" => !d.scope_thread && d.limit.is_some() && d.ttl.is_none() && d.max_memory.is_none() && matches!(d.policy, "lfu" | "arc" | "tlru"),
             "C17" => !d.scope_thread && (d.limit.is_some() || d.ttl.is_some() || d.max_memory.is_some()),
+            "C12" => !d.scope_thread && d.ttl.is_none() && !(d.tags.is_empty() && d.events.is_empty() && d.deps.is_empty()),
             _ => !d.scope_thread,
         })
         .collect();
@@ -171,6 +177,7 @@ fn gen_scenario(seed: u64, index: u64, focus: &str, jitter: bool) -> Scenario {
             let (w_invw, w_invall, w_group, w_stats, w_adv) = match focus {
                 "C03" | "C14" | "C09" | "C07" | "C08" => (0, 0, 0, 2, 0),
                 "C15" => (6, 3, 5, 6, if any_ttl { 5 } else { 0 }),
+                "C12" => (0, 0, 16, 26, 0),
                 _ => (14, 6, 10, 5, if any_ttl { 5 } else { 0 }),
             };
             let mut acc = w_invw;
@@ -219,7 +226,7 @@ fn gen_scenario(seed: u64, index: u64, focus: &str, jitter: bool) -> Scenario {
             }
             acc += w_stats;
             if r < acc && !shared.is_empty() {
-                p.push(if rng.chance(1, 3) { Op::StatsList } else { Op::StatsGet { f: *rng.pick(&shared) } });
+                p.push(if focus == "C12" { Op::List { f: *rng.pick(&shared) } } else if rng.chance(1, 3) { Op::StatsList } else { Op::StatsGet { f: *rng.pick(&shared) } });
                 continue;
             }
             acc += w_adv;
@@ -297,13 +304,28 @@ fn norm_site(s: &str) -> String {
     }
 }
 
+#[derive(Clone, Debug)]
+struct ProbeRec {
+    f: usize,
+    ret: u64,
+    keys: BTreeSet<String>,
+}
+#[derive(Clone, Debug)]
+struct GroupRec {
+    kind: u8,
+    name: String,
+    inv: u64,
+    ret: u64,
+}
 struct Shared {
+    probes: Mutex<Vec<ProbeRec>>,
+    groups: Mutex<Vec<GroupRec>>,
     recs: Mutex<Vec<CallRec>>,
     viol: Mutex<Vec<(String, String, String, Value)>>,
 }
 
 /// runs on a worker thread
-fn exec_prog(t: usize, prog: &[Op], fns: &[(&'static FnDesc, BTreeMap<u32, String>, Vec<u32>)], sh: &Shared, n_threads: usize) {
+fn exec_prog(t: usize, prog: &[Op], fns: &[(&'static FnDesc, BTreeMap<u32, String>, Vec<u32>)], sh: &Shared, n_threads: usize, unique: bool) {
     // per-thread models for thread-scope functions (schedule-independent by definition)
     let mut beliefs: HashMap<usize, Belief> = HashMap::new();
     let _ = n_threads;
@@ -317,6 +339,9 @@ fn exec_prog(t: usize, prog: &[Op], fns: &[(&'static FnDesc, BTreeMap<u32, Strin
                 let serial = vhooks::stamp() | (1 << 62);
                 if *err {
                     vhooks::arm_exec(vhooks::ExecPlan { value: Some(serial), ok: false, len: None });
+                } else if unique {
+                    // every execution returns its own value: a served value identifies the store it came from
+                    vhooks::arm_exec(vhooks::ExecPlan { value: Some(serial), ok: true, len: None });
                 }
                 vhooks::arm_pred(None);
                 vhooks::arm_check(None);
@@ -331,8 +356,15 @@ fn exec_prog(t: usize, prog: &[Op], fns: &[(&'static FnDesc, BTreeMap<u32, Strin
                         vhooks::disarm_exec();
                         // an Err is never cached: a call that did not run the body must have been
                         // served the function's (Ok) value; one that ran an Err script returns it
-                        let okv = if *err && executed { co.value == serial && !co.ok } else { co.value == co.twin && co.ok };
-                        sh.recs.lock().unwrap().push(CallRec { thread: t, f: *f, slot: *slot, inv, ret, executed, ran_err: *err && executed && d.is_result, ok_value: okv });
+                        let okv = if *err && executed {
+                            co.value == serial && !co.ok
+                        } else if unique {
+                            // executed: its own value; served: checked against the set of produced values at quiescence
+                            co.ok && (!executed || co.value == serial)
+                        } else {
+                            co.value == co.twin && co.ok
+                        };
+                        sh.recs.lock().unwrap().push(CallRec { thread: t, f: *f, slot: *slot, inv, ret, executed, ran_err: *err && executed && d.is_result, ok_value: okv, value: co.value });
                         if d.scope_thread {
                             let cfg = cfg_of(d);
                             let wd = WrapDesc { is_async: false, is_result: d.is_result, has_cache_if: false, has_invalidate_on: false };
@@ -365,12 +397,20 @@ fn exec_prog(t: usize, prog: &[Op], fns: &[(&'static FnDesc, BTreeMap<u32, Strin
                 cachelito_core::invalidate_all_with(|name, key| want.get(name).map_or(false, |s| s.iter().any(|x| x.as_str() == key)));
             }
             Op::Group { kind, name } => {
+                let inv = vhooks::stamp();
                 match kind {
                     0 => cachelito_core::invalidate_by_tag(name),
                     1 => cachelito_core::invalidate_by_event(name),
                     2 => cachelito_core::invalidate_by_dependency(name),
                     _ => cachelito_core::invalidate_cache(name) as usize,
                 };
+                let ret = vhooks::stamp();
+                sh.groups.lock().unwrap().push(GroupRec { kind: *kind, name: name.clone(), inv, ret });
+            }
+            Op::List { f } => {
+                let keys: BTreeSet<String> = listing(fns[*f].0.reg_name).unwrap_or_default().into_iter().collect();
+                let ret = vhooks::stamp();
+                sh.probes.lock().unwrap().push(ProbeRec { f: *f, ret, keys });
             }
             Op::StatsGet { f } => {
                 let _ = cachelito_core::stats_registry::get(fns[*f].0.reg_name);
@@ -470,14 +510,15 @@ fn run_scenario(rep: &mut Report, sc: &mut Scenario, seed: u64, mode: &str, focu
     }
     vhooks::take_log();
     let fnsv: Arc<Vec<(&'static FnDesc, BTreeMap<u32, String>, Vec<u32>)>> = Arc::new(sc.fns.iter().map(|f| (f.d, f.keymap.clone(), f.slots.clone())).collect());
-    let shared = Arc::new(Shared { recs: Mutex::new(vec![]), viol: Mutex::new(vec![]) });
+    let shared = Arc::new(Shared { probes: Mutex::new(vec![]), groups: Mutex::new(vec![]), recs: Mutex::new(vec![]), viol: Mutex::new(vec![]) });
     let nthreads = sc.progs.len();
     let mut progs: Vec<Box<dyn FnOnce() + Send + 'static>> = vec![];
     for (t, p) in sc.progs.iter().enumerate() {
         let p = p.clone();
         let fnsv = fnsv.clone();
         let sh = shared.clone();
-        progs.push(Box::new(move || exec_prog(t, &p, &fnsv, &sh, nthreads)));
+        let unique = focus == "C12";
+        progs.push(Box::new(move || exec_prog(t, &p, &fnsv, &sh, nthreads, unique)));
     }
     rep.count("CONC", "schedules", 1);
     rep.count("CONC", &format!("schedules_{}", mode), 1);
@@ -585,6 +626,36 @@ fn run_scenario(rep: &mut Report, sc: &mut Scenario, seed: u64, mode: &str, focu
                     let p = if focus == "C03" { "C03" } else if d.is_result && (focus == "C09" || calls.iter().any(|x| x.ran_err && x.slot == c.slot)) { "C09" } else { p };
                     fail(rep, p, "executed-after-a-storing-call-returned", f, format!("{} slot {}: thread {} executed the body (invoked at {}) although thread {}'s executing call had returned at {}", d.fn_name, c.slot, c.thread, c.inv, prev.thread, prev.ret), json!({"fid": d.fid}));
                     return Outcome { status: "ok" };
+                }
+            }
+        }
+        // C12 under concurrency (values unique per execution): a value that was in the cache before
+        // a matching group invalidation began - it was served by a call that returned before, or
+        // its producing execution returned before - must not be served once the invalidation has
+        // returned.  (An execution stores once; a value seen before cannot be stored again later.)
+        if focus == "C12" && d.ttl.is_none() {
+            let groups = shared.groups.lock().unwrap().clone();
+            // served values must come from some execution of the same key
+            for c in calls.iter().filter(|c| !c.executed) {
+                if !calls.iter().any(|e| e.executed && e.slot == c.slot && e.value == c.value) {
+                    fail(rep, "C18", "served-value-nobody-produced", f, format!("{} slot {}: served value {:x} was produced by no execution for that key", d.reg_name, c.slot, c.value), json!({"fid": d.fid}));
+                    return Outcome { status: "ok" };
+                }
+            }
+            for x in groups.iter().filter(|x| match x.kind {
+                0 => d.tags.contains(&x.name.as_str()),
+                1 => d.events.contains(&x.name.as_str()),
+                2 => d.deps.contains(&x.name.as_str()),
+                _ => d.reg_name == x.name && !(d.tags.is_empty() && d.events.is_empty() && d.deps.is_empty()),
+            }) {
+                rep.count("C12", "concurrent_group_invalidations_checked", 1);
+                for after in calls.iter().filter(|c| !c.executed && c.inv > x.ret) {
+                    let v = after.value;
+                    let seen_before = calls.iter().any(|b| b.slot == after.slot && b.value == v && b.ret < x.inv);
+                    if seen_before {
+                        fail(rep, "C12", "entry-from-before-the-invalidation-served", f, format!("{}: thread {} was served value {:x} for slot {} (call invoked at {}) after the matching invalidation {:?} had returned at {}; the same value had already been returned by a call that finished before the invalidation began at {}", d.reg_name, after.thread, v, after.slot, after.inv, x.name, x.ret, x.inv), json!({"fid": d.fid}));
+                        return Outcome { status: "ok" };
+                    }
                 }
             }
         }
